@@ -69,8 +69,8 @@ namespace OpenMEEG {
         //  try to test another point chosen randomly inside the bounding box, until
         //  its solid angle is significantly non zero.
 
-        if (almost_equal(solangle,0.0))
-            while (almost_equal(solangle,0.)) {
+        if (std::abs(solangle)<1e-6)
+            while (std::abs(solangle)<1e-6) {
                 const Vertex& V = bb.random_point();
                 solangle = solid_angle(V);
             }
